@@ -217,3 +217,311 @@ Example model_is_source_C08_Iter_nonvacuous :
   | _, _ => False
   end.
 Proof. vm_compute. exact I. Qed.
+
+(* ======================================================================================================
+   C08 (iterative solvers), the DRIFT CLAUSE -- package round2.  Append to Props/C08.v.
+   "up to the rounding drift of the residual recurrence, proportional to machine epsilon, the iteration count, ||A|| and
+   the largest iterate": for the model's solve_cg / solve_bicg / solve_bicgstab (Model/Iter.v) run in the STANDARD MODEL
+   of floating-point arithmetic (every operation = the exact one times (1+d), |d| <= u; rounded square root), with a
+   matrix-vector product accurate to eA normwise, the recurrence residual r_k (g_t g) and the true residual b - A x_k
+   differ in the 2-norm by at most
+        (4j+1) / (1-rho)^(j+1) * [ (rho NA + eA) kap X + rho ||b|| ],      rho = u/(1-u),  kap = 1/(1 - gam_{n+1}),
+   j = number of updates x += alpha p (= k for CG and BiCG, 2k for BiCGSTAB), NA >= ||A||_2, X = t_X (g_X g) = the
+   model's own ghost trace (largest COMPUTED 2-norm of an iterate or update term) -- the quantity the oracle of
+   driver/c08.py reads from the float model.  Hence Ok k => ||b - A x|| <= tol (1+O(nu)) ||b||' + that bound.
+   For the model's CSC product sp_mul, eA = gam_m || |A| ||_2 (m = longest stored row): [sparse_product_accuracy].
+   Comparison with the oracle's allowance 64 (k+1) eps (||A|| X + ||b||)/||b||', eps = 2u: the theorem's constant per
+   iteration is 4 (NA + m || |A| ||) u X + 4 u ||b|| (CG, BiCG; twice that for BiCGSTAB) against 128 u (||A|| X + ||b||):
+   the allowance is implied whenever (about) m || |A| ||_2 <= 30 ||A||_2 (CG/BiCG) resp. <= 14 ||A||_2 (BiCGSTAB):
+   [ok_means_solved_oracle_allowance] below states this exactly.
+   Unproved remainder: QMR (its second recurrence s ~ A d needs an invariant of its own); the standard model itself
+   (no overflow/underflow; discharged for binary64 operations in Proofs/RoundDotFloat.v away from underflow).
+   ====================================================================================================== *)
+From Coq Require Import Reals List Lra Lia.
+From OV Require Import Base.Panic Base.Arith Base.RoundModel Model.Vector Model.Sparse Model.Iter
+  Proofs.SparseBase Proofs.RoundSparse Proofs.RoundSparseDense Proofs.RoundNorm2 Proofs.RoundFlx
+  Proofs.Round2CGNorm Proofs.Round2CG Proofs.Round2CGMore Proofs.Round2CGOk.
+Import ListNotations.
+
+Theorem residual_drift : forall (u : R), (0 <= u < 1)%R ->
+  forall (fadd fsub fmul fdiv : R -> R -> R) (fsqrt : R -> R),
+  (forall x y : R, exists d : R, (Rabs d <= u)%R /\ fadd x y = ((x + y) * (1 + d))%R) ->
+  (forall x y : R, exists d : R, (Rabs d <= u)%R /\ fsub x y = ((x - y) * (1 + d))%R) ->
+  (forall x y : R, exists d : R, (Rabs d <= u)%R /\ fmul x y = (x * y * (1 + d))%R) ->
+  (forall a b : R, fadd 0%R (fmul a b) = fmul a b) ->
+  (forall x : R, (0 <= x)%R -> exists d : R, (Rabs d <= u)%R /\ fsqrt x = (R_sqrt.sqrt x * (1 + d))%R) ->
+  forall n : nat, (2 * INR (n + 1) * u < 1)%R ->
+  forall (a : nat -> nat -> R) (NA eA : R), (0 <= NA)%R -> (0 <= eA)%R ->
+  (forall f : nat -> R, (N2 n (Ax n a f) <= NA * N2 n f)%R) ->
+  forall mulA : list R -> res (list R),
+  (forall v : list R, length v = n -> exists w : list R, mulA v = Ok w /\ length w = n /\
+     (N2 n (fun i => vf w i - Ax n a (vf v) i) <= eA * N2 n (vf v))%R) ->
+  forall (mulAT : list R -> res (list R)) (sv : solver) (b x0 : list R) (cols max : nat) (tol : R) (k : nat)
+    (x : list R) (g : ghost (SARm fadd fsub fmul fdiv fsqrt)),
+  sv <> QMR ->
+  run (A := SARm fadd fsub fmul fdiv fsqrt) mulA mulAT n cols sv b x0 max tol = Ok (IOk k, x, g) ->
+  (k <= max)%nat /\ length x = n /\ length (g_t g) = n /\ (0 <= t_X (g_X g))%R /\
+  ((1 - rho u) ^ (updates sv k + 1) * N2 n (fun i => vf b i - Ax n a (vf x) i - vf (g_t g) i)
+   <= (4 * INR (updates sv k) + 1) * ((rho u * NA + eA) * (kap u n * t_X (g_X g)) + rho u * N2 n (vf b)))%R.
+Proof. intros u Hu fadd fsub fmul fdiv fsqrt Ha Hs Hm H0 Hq n Hn a NA eA HNA HeA HA mulA MV mulAT sv b x0 cols max tol k x g Hsv H. exact (run_drift_lemma u Hu fadd fsub fmul fdiv fsqrt Ha Hs Hm H0 Hq n Hn a NA eA HNA HeA HA mulA MV mulAT sv b x0 cols max tol k x g Hsv H). Qed.
+Check residual_drift : forall (u : R), (0 <= u < 1)%R ->
+  forall (fadd fsub fmul fdiv : R -> R -> R) (fsqrt : R -> R),
+  (forall x y : R, exists d : R, (Rabs d <= u)%R /\ fadd x y = ((x + y) * (1 + d))%R) ->
+  (forall x y : R, exists d : R, (Rabs d <= u)%R /\ fsub x y = ((x - y) * (1 + d))%R) ->
+  (forall x y : R, exists d : R, (Rabs d <= u)%R /\ fmul x y = (x * y * (1 + d))%R) ->
+  (forall a b : R, fadd 0%R (fmul a b) = fmul a b) ->
+  (forall x : R, (0 <= x)%R -> exists d : R, (Rabs d <= u)%R /\ fsqrt x = (R_sqrt.sqrt x * (1 + d))%R) ->
+  forall n : nat, (2 * INR (n + 1) * u < 1)%R ->
+  forall (a : nat -> nat -> R) (NA eA : R), (0 <= NA)%R -> (0 <= eA)%R ->
+  (forall f : nat -> R, (N2 n (Ax n a f) <= NA * N2 n f)%R) ->
+  forall mulA : list R -> res (list R),
+  (forall v : list R, length v = n -> exists w : list R, mulA v = Ok w /\ length w = n /\
+     (N2 n (fun i => vf w i - Ax n a (vf v) i) <= eA * N2 n (vf v))%R) ->
+  forall (mulAT : list R -> res (list R)) (sv : solver) (b x0 : list R) (cols max : nat) (tol : R) (k : nat)
+    (x : list R) (g : ghost (SARm fadd fsub fmul fdiv fsqrt)),
+  sv <> QMR ->
+  run (A := SARm fadd fsub fmul fdiv fsqrt) mulA mulAT n cols sv b x0 max tol = Ok (IOk k, x, g) ->
+  (k <= max)%nat /\ length x = n /\ length (g_t g) = n /\ (0 <= t_X (g_X g))%R /\
+  ((1 - rho u) ^ (updates sv k + 1) * N2 n (fun i => vf b i - Ax n a (vf x) i - vf (g_t g) i)
+   <= (4 * INR (updates sv k) + 1) * ((rho u * NA + eA) * (kap u n * t_X (g_X g)) + rho u * N2 n (vf b)))%R.
+Print Assumptions residual_drift.
+(* the hypotheses are met by an arithmetic that rounds every operation (53 bits, round-to-nearest-even, rounded square
+   root) with the model's own CSC product of the 1x1 matrix [[2]] (NA = 2, eA = gam_1 * 2), and CG answers Ok(1) on
+   2 x = 2 from x0 = 0 (one genuine iteration: the start-up test fails with resid = 1) *)
+Example residual_drift_nonvacuous :
+  (0 <= ux < 1)%R /\
+  (forall x y : R, exists d : R, (Rabs d <= ux)%R /\ xadd x y = ((x + y) * (1 + d))%R) /\
+  (forall x y : R, exists d : R, (Rabs d <= ux)%R /\ xsub x y = ((x - y) * (1 + d))%R) /\
+  (forall x y : R, exists d : R, (Rabs d <= ux)%R /\ xmul x y = (x * y * (1 + d))%R) /\
+  (forall x y : R, y <> 0%R -> exists d : R, (Rabs d <= ux)%R /\ xdiv x y = (x / y * (1 + d))%R) /\
+  (forall a b : R, xadd 0%R (xmul a b) = xmul a b) /\
+  (forall x : R, (0 <= x)%R -> exists d : R, (Rabs d <= ux)%R /\ xsqrt x = (R_sqrt.sqrt x * (1 + d))%R) /\
+  (2 * INR (1 + 1) * ux < 1)%R /\ (0 <= 2)%R /\ (0 <= gam ux 1 * 2)%R /\
+  (forall f : nat -> R, (N2 1 (Ax 1 (sp_rentry xadd xsub xmul xdiv sx1) f) <= 2 * N2 1 f)%R) /\
+  (forall v : list R, length v = 1%nat -> exists w : list R, sp_mul sx1 v = Ok w /\ length w = 1%nat /\
+     (N2 1 (fun i => vf w i - Ax 1 (sp_rentry xadd xsub xmul xdiv sx1) (vf v) i) <= (gam ux 1 * 2) * N2 1 (vf v))%R) /\
+  CG <> QMR /\
+  (exists g, run (A := SARm xadd xsub xmul xdiv xsqrt) (sp_mul sx1) (sp_tmul sx1) 1 1 CG [2%R] [0%R] 2 (/ 2)%R
+             = Ok (IOk 1, [1%R], g)).
+Proof.
+  split; [exact ux_range|]. split; [exact xadd_ok|]. split; [exact xsub_ok|]. split; [exact xmul_ok|].
+  split; [exact xdiv_ok|]. split; [exact xadd_0_mul|]. split; [exact xsqrt_ok|]. split; [exact ex_n_small|].
+  split; [lra|]. split; [pose proof (gam_nonneg ux ux_range 1 ex_m_small); lra|].
+  split; [apply sx1_norm; apply sx1_entry|]. split; [exact sx1_MV|]. split; [discriminate|exact cg_run_flx].
+Qed.
+
+Theorem ok_means_solved_rounded : forall (u : R), (0 <= u < 1)%R ->
+  forall (fadd fsub fmul fdiv : R -> R -> R) (fsqrt : R -> R),
+  (forall x y : R, exists d : R, (Rabs d <= u)%R /\ fadd x y = ((x + y) * (1 + d))%R) ->
+  (forall x y : R, exists d : R, (Rabs d <= u)%R /\ fsub x y = ((x - y) * (1 + d))%R) ->
+  (forall x y : R, exists d : R, (Rabs d <= u)%R /\ fmul x y = (x * y * (1 + d))%R) ->
+  (forall x y : R, y <> 0%R -> exists d : R, (Rabs d <= u)%R /\ fdiv x y = (x / y * (1 + d))%R) ->
+  (forall a b : R, fadd 0%R (fmul a b) = fmul a b) ->
+  (forall x : R, (0 <= x)%R -> exists d : R, (Rabs d <= u)%R /\ fsqrt x = (R_sqrt.sqrt x * (1 + d))%R) ->
+  forall n : nat, (2 * INR (n + 1) * u < 1)%R ->
+  forall (a : nat -> nat -> R) (NA eA : R), (0 <= NA)%R -> (0 <= eA)%R ->
+  (forall f : nat -> R, (N2 n (Ax n a f) <= NA * N2 n f)%R) ->
+  forall mulA : list R -> res (list R),
+  (forall v : list R, length v = n -> exists w : list R, mulA v = Ok w /\ length w = n /\
+     (N2 n (fun i => vf w i - Ax n a (vf v) i) <= eA * N2 n (vf v))%R) ->
+  forall (mulAT : list R -> res (list R)) (sv : solver) (b x0 : list R) (cols max : nat) (tol : R) (k : nat)
+    (x : list R) (g : ghost (SARm fadd fsub fmul fdiv fsqrt)),
+  sv <> QMR ->
+  run (A := SARm fadd fsub fmul fdiv fsqrt) mulA mulAT n cols sv b x0 max tol = Ok (IOk k, x, g) ->
+  (k <= max)%nat /\
+  (N2 n (fun i => vf b i - Ax n a (vf x) i)
+   <= tol * (kap u n * (1 + rho u) * (1 + gN u n)) * nzR (N2 n (vf b))
+      + (4 * INR (updates sv k) + 1) * ((rho u * NA + eA) * (kap u n * t_X (g_X g)) + rho u * N2 n (vf b))
+        / (1 - rho u) ^ (updates sv k + 1))%R.
+Proof. intros u Hu fadd fsub fmul fdiv fsqrt Ha Hs Hm Hd H0 Hq n Hn a NA eA HNA HeA HA mulA MV mulAT sv b x0 cols max tol k x g Hsv H. exact (run_ok_means_solved_rounded_lemma u Hu fadd fsub fmul fdiv fsqrt Ha Hs Hm Hd H0 Hq n Hn a NA eA HNA HeA HA mulA MV mulAT sv b x0 cols max tol k x g Hsv H). Qed.
+Check ok_means_solved_rounded : forall (u : R), (0 <= u < 1)%R ->
+  forall (fadd fsub fmul fdiv : R -> R -> R) (fsqrt : R -> R),
+  (forall x y : R, exists d : R, (Rabs d <= u)%R /\ fadd x y = ((x + y) * (1 + d))%R) ->
+  (forall x y : R, exists d : R, (Rabs d <= u)%R /\ fsub x y = ((x - y) * (1 + d))%R) ->
+  (forall x y : R, exists d : R, (Rabs d <= u)%R /\ fmul x y = (x * y * (1 + d))%R) ->
+  (forall x y : R, y <> 0%R -> exists d : R, (Rabs d <= u)%R /\ fdiv x y = (x / y * (1 + d))%R) ->
+  (forall a b : R, fadd 0%R (fmul a b) = fmul a b) ->
+  (forall x : R, (0 <= x)%R -> exists d : R, (Rabs d <= u)%R /\ fsqrt x = (R_sqrt.sqrt x * (1 + d))%R) ->
+  forall n : nat, (2 * INR (n + 1) * u < 1)%R ->
+  forall (a : nat -> nat -> R) (NA eA : R), (0 <= NA)%R -> (0 <= eA)%R ->
+  (forall f : nat -> R, (N2 n (Ax n a f) <= NA * N2 n f)%R) ->
+  forall mulA : list R -> res (list R),
+  (forall v : list R, length v = n -> exists w : list R, mulA v = Ok w /\ length w = n /\
+     (N2 n (fun i => vf w i - Ax n a (vf v) i) <= eA * N2 n (vf v))%R) ->
+  forall (mulAT : list R -> res (list R)) (sv : solver) (b x0 : list R) (cols max : nat) (tol : R) (k : nat)
+    (x : list R) (g : ghost (SARm fadd fsub fmul fdiv fsqrt)),
+  sv <> QMR ->
+  run (A := SARm fadd fsub fmul fdiv fsqrt) mulA mulAT n cols sv b x0 max tol = Ok (IOk k, x, g) ->
+  (k <= max)%nat /\
+  (N2 n (fun i => vf b i - Ax n a (vf x) i)
+   <= tol * (kap u n * (1 + rho u) * (1 + gN u n)) * nzR (N2 n (vf b))
+      + (4 * INR (updates sv k) + 1) * ((rho u * NA + eA) * (kap u n * t_X (g_X g)) + rho u * N2 n (vf b))
+        / (1 - rho u) ^ (updates sv k + 1))%R.
+Print Assumptions ok_means_solved_rounded.
+(* non-vacuity: the same instance as residual_drift_nonvacuous (all hypotheses, including the rounded division) *)
+Example ok_means_solved_rounded_nonvacuous :
+  (forall x y : R, y <> 0%R -> exists d : R, (Rabs d <= ux)%R /\ xdiv x y = (x / y * (1 + d))%R) /\
+  (exists g, run (A := SARm xadd xsub xmul xdiv xsqrt) (sp_mul sx1) (sp_tmul sx1) 1 1 CG [2%R] [0%R] 2 (/ 2)%R
+             = Ok (IOk 1, [1%R], g)).
+Proof. split; [exact xdiv_ok|exact cg_run_flx]. Qed.
+
+(* the allowance of the oracle (driver/c08.py: tol ||b||' + 64 (k+1) eps (||A|| X + ||b||), eps = 2u) as a corollary:
+   it is implied when the product is accurate to eA <= c u NA and (4j+1)(1+c) amp <= 128 (k+1), where
+   amp = kap (1+rho)/(1-rho)^(j+1) = 1 + O((j+n) u): for CG/BiCG any c <= 30 (amp <= 32/31), for BiCGSTAB any c <= 14 (amp <= 16/15) *)
+Theorem ok_means_solved_oracle_allowance : forall (u : R), (0 <= u < 1)%R ->
+  forall (fadd fsub fmul fdiv : R -> R -> R) (fsqrt : R -> R),
+  (forall x y : R, exists d : R, (Rabs d <= u)%R /\ fadd x y = ((x + y) * (1 + d))%R) ->
+  (forall x y : R, exists d : R, (Rabs d <= u)%R /\ fsub x y = ((x - y) * (1 + d))%R) ->
+  (forall x y : R, exists d : R, (Rabs d <= u)%R /\ fmul x y = (x * y * (1 + d))%R) ->
+  (forall x y : R, y <> 0%R -> exists d : R, (Rabs d <= u)%R /\ fdiv x y = (x / y * (1 + d))%R) ->
+  (forall a b : R, fadd 0%R (fmul a b) = fmul a b) ->
+  (forall x : R, (0 <= x)%R -> exists d : R, (Rabs d <= u)%R /\ fsqrt x = (R_sqrt.sqrt x * (1 + d))%R) ->
+  forall n : nat, (2 * INR (n + 1) * u < 1)%R ->
+  forall (a : nat -> nat -> R) (NA eA : R), (0 <= NA)%R -> (0 <= eA)%R ->
+  (forall f : nat -> R, (N2 n (Ax n a f) <= NA * N2 n f)%R) ->
+  forall mulA : list R -> res (list R),
+  (forall v : list R, length v = n -> exists w : list R, mulA v = Ok w /\ length w = n /\
+     (N2 n (fun i => vf w i - Ax n a (vf v) i) <= eA * N2 n (vf v))%R) ->
+  forall (mulAT : list R -> res (list R)) (sv : solver) (b x0 : list R) (cols max : nat) (tol : R) (k : nat)
+    (x : list R) (g : ghost (SARm fadd fsub fmul fdiv fsqrt)) (c : R),
+  sv <> QMR -> (0 <= c)%R -> (eA <= c * (u * NA))%R ->
+  ((4 * INR (updates sv k) + 1) * (1 + c) * amp u n (updates sv k) <= 128 * INR (k + 1))%R ->
+  run (A := SARm fadd fsub fmul fdiv fsqrt) mulA mulAT n cols sv b x0 max tol = Ok (IOk k, x, g) ->
+  (N2 n (fun i => vf b i - Ax n a (vf x) i)
+   <= tol * (kap u n * (1 + rho u) * (1 + gN u n)) * nzR (N2 n (vf b))
+      + 64 * INR (k + 1) * (2 * u) * (NA * t_X (g_X g) + N2 n (vf b)))%R.
+Proof. intros u Hu fadd fsub fmul fdiv fsqrt Ha Hs Hm Hd H0 Hq n Hn a NA eA HNA HeA HA mulA MV mulAT sv b x0 cols max tol k x g c Hsv Hc He Hamp H. exact (run_ok_means_solved_allowance_lemma u Hu fadd fsub fmul fdiv fsqrt Ha Hs Hm Hd H0 Hq n Hn a NA eA HNA HeA HA mulA MV mulAT sv b x0 cols max tol k x g c Hsv Hc He Hamp H). Qed.
+Check ok_means_solved_oracle_allowance : forall (u : R), (0 <= u < 1)%R ->
+  forall (fadd fsub fmul fdiv : R -> R -> R) (fsqrt : R -> R),
+  (forall x y : R, exists d : R, (Rabs d <= u)%R /\ fadd x y = ((x + y) * (1 + d))%R) ->
+  (forall x y : R, exists d : R, (Rabs d <= u)%R /\ fsub x y = ((x - y) * (1 + d))%R) ->
+  (forall x y : R, exists d : R, (Rabs d <= u)%R /\ fmul x y = (x * y * (1 + d))%R) ->
+  (forall x y : R, y <> 0%R -> exists d : R, (Rabs d <= u)%R /\ fdiv x y = (x / y * (1 + d))%R) ->
+  (forall a b : R, fadd 0%R (fmul a b) = fmul a b) ->
+  (forall x : R, (0 <= x)%R -> exists d : R, (Rabs d <= u)%R /\ fsqrt x = (R_sqrt.sqrt x * (1 + d))%R) ->
+  forall n : nat, (2 * INR (n + 1) * u < 1)%R ->
+  forall (a : nat -> nat -> R) (NA eA : R), (0 <= NA)%R -> (0 <= eA)%R ->
+  (forall f : nat -> R, (N2 n (Ax n a f) <= NA * N2 n f)%R) ->
+  forall mulA : list R -> res (list R),
+  (forall v : list R, length v = n -> exists w : list R, mulA v = Ok w /\ length w = n /\
+     (N2 n (fun i => vf w i - Ax n a (vf v) i) <= eA * N2 n (vf v))%R) ->
+  forall (mulAT : list R -> res (list R)) (sv : solver) (b x0 : list R) (cols max : nat) (tol : R) (k : nat)
+    (x : list R) (g : ghost (SARm fadd fsub fmul fdiv fsqrt)) (c : R),
+  sv <> QMR -> (0 <= c)%R -> (eA <= c * (u * NA))%R ->
+  ((4 * INR (updates sv k) + 1) * (1 + c) * amp u n (updates sv k) <= 128 * INR (k + 1))%R ->
+  run (A := SARm fadd fsub fmul fdiv fsqrt) mulA mulAT n cols sv b x0 max tol = Ok (IOk k, x, g) ->
+  (N2 n (fun i => vf b i - Ax n a (vf x) i)
+   <= tol * (kap u n * (1 + rho u) * (1 + gN u n)) * nzR (N2 n (vf b))
+      + 64 * INR (k + 1) * (2 * u) * (NA * t_X (g_X g) + N2 n (vf b)))%R.
+Print Assumptions ok_means_solved_oracle_allowance.
+(* non-vacuity: on the instance of residual_drift_nonvacuous (n = 1, NA = 2, eA = gam_1 * 2, k = 1) the two extra
+   hypotheses hold with c = 2 *)
+Example ok_means_solved_oracle_allowance_nonvacuous :
+  (0 <= 2)%R /\ (gam ux 1 * 2 <= 2 * (ux * 2))%R /\
+  ((4 * INR (updates CG 1) + 1) * (1 + 2) * amp ux 1 (updates CG 1) <= 128 * INR (1 + 1))%R /\
+  (exists g, run (A := SARm xadd xsub xmul xdiv xsqrt) (sp_mul sx1) (sp_tmul sx1) 1 1 CG [2%R] [0%R] 2 (/ 2)%R
+             = Ok (IOk 1, [1%R], g)).
+Proof. split; [lra|]. split; [exact ex_eA_c|]. split; [exact ex_amp|exact cg_run_flx]. Qed.
+
+(* the same for the entry point the correspondence check runs ([run_sparse]: the solvers on a CSC matrix with the model's
+   own products), every constant computable from the stored matrix: NA = ||A||_F, eA = gam_m || |A| ||_F (Frobenius
+   norms), m = the longest stored row *)
+Theorem run_sparse_ok_means_solved_rounded : forall (u : R), (0 <= u < 1)%R ->
+  forall (fadd fsub fmul fdiv : R -> R -> R) (fsqrt : R -> R),
+  (forall x y : R, exists d : R, (Rabs d <= u)%R /\ fadd x y = ((x + y) * (1 + d))%R) ->
+  (forall x y : R, exists d : R, (Rabs d <= u)%R /\ fsub x y = ((x - y) * (1 + d))%R) ->
+  (forall x y : R, exists d : R, (Rabs d <= u)%R /\ fmul x y = (x * y * (1 + d))%R) ->
+  (forall x y : R, y <> 0%R -> exists d : R, (Rabs d <= u)%R /\ fdiv x y = (x / y * (1 + d))%R) ->
+  (forall a b : R, fadd 0%R (fmul a b) = fmul a b) ->
+  (forall x : R, (0 <= x)%R -> exists d : R, (Rabs d <= u)%R /\ fsqrt x = (R_sqrt.sqrt x * (1 + d))%R) ->
+  forall (s : sparse (ARm fadd fsub fmul fdiv)) (n m : nat) (sv : solver) (b x0 : list R) (max : nat) (tol : R) (k : nat)
+    (x : list R) (g : ghost (SARm fadd fsub fmul fdiv fsqrt)),
+  wfS s -> sp_rows s = n -> sp_cols s = n ->
+  (forall i, (i < n)%nat -> (length (row_entries s i) <= m)%nat) -> (INR m * u < 1)%R ->
+  (2 * INR (n + 1) * u < 1)%R -> sv <> QMR ->
+  run_sparse (A := SARm fadd fsub fmul fdiv fsqrt) sv s b x0 max tol = Ok (IOk k, x, g) ->
+  (k <= max)%nat /\
+  (N2 n (fun i => vf b i - Ax n (sp_rentry fadd fsub fmul fdiv s) (vf x) i)
+   <= tol * (kap u n * (1 + rho u) * (1 + gN u n)) * nzR (N2 n (vf b))
+      + (4 * INR (updates sv k) + 1)
+        * ((rho u * frob n (sp_rentry fadd fsub fmul fdiv s) + gam u m * frob n (sp_rabs fadd fsub fmul fdiv s))
+             * (kap u n * t_X (g_X g)) + rho u * N2 n (vf b))
+        / (1 - rho u) ^ (updates sv k + 1))%R.
+Proof. intros u Hu fadd fsub fmul fdiv fsqrt Ha Hs Hm Hd H0 Hq s n m sv b x0 max tol k x g. exact (run_sparse_ok_means_solved_rounded_lemma u Hu fadd fsub fmul fdiv fsqrt Ha Hs Hm Hd H0 Hq s n m sv b x0 max tol k x g). Qed.
+Check run_sparse_ok_means_solved_rounded : forall (u : R), (0 <= u < 1)%R ->
+  forall (fadd fsub fmul fdiv : R -> R -> R) (fsqrt : R -> R),
+  (forall x y : R, exists d : R, (Rabs d <= u)%R /\ fadd x y = ((x + y) * (1 + d))%R) ->
+  (forall x y : R, exists d : R, (Rabs d <= u)%R /\ fsub x y = ((x - y) * (1 + d))%R) ->
+  (forall x y : R, exists d : R, (Rabs d <= u)%R /\ fmul x y = (x * y * (1 + d))%R) ->
+  (forall x y : R, y <> 0%R -> exists d : R, (Rabs d <= u)%R /\ fdiv x y = (x / y * (1 + d))%R) ->
+  (forall a b : R, fadd 0%R (fmul a b) = fmul a b) ->
+  (forall x : R, (0 <= x)%R -> exists d : R, (Rabs d <= u)%R /\ fsqrt x = (R_sqrt.sqrt x * (1 + d))%R) ->
+  forall (s : sparse (ARm fadd fsub fmul fdiv)) (n m : nat) (sv : solver) (b x0 : list R) (max : nat) (tol : R) (k : nat)
+    (x : list R) (g : ghost (SARm fadd fsub fmul fdiv fsqrt)),
+  wfS s -> sp_rows s = n -> sp_cols s = n ->
+  (forall i, (i < n)%nat -> (length (row_entries s i) <= m)%nat) -> (INR m * u < 1)%R ->
+  (2 * INR (n + 1) * u < 1)%R -> sv <> QMR ->
+  run_sparse (A := SARm fadd fsub fmul fdiv fsqrt) sv s b x0 max tol = Ok (IOk k, x, g) ->
+  (k <= max)%nat /\
+  (N2 n (fun i => vf b i - Ax n (sp_rentry fadd fsub fmul fdiv s) (vf x) i)
+   <= tol * (kap u n * (1 + rho u) * (1 + gN u n)) * nzR (N2 n (vf b))
+      + (4 * INR (updates sv k) + 1)
+        * ((rho u * frob n (sp_rentry fadd fsub fmul fdiv s) + gam u m * frob n (sp_rabs fadd fsub fmul fdiv s))
+             * (kap u n * t_X (g_X g)) + rho u * N2 n (vf b))
+        / (1 - rho u) ^ (updates sv k + 1))%R.
+Print Assumptions run_sparse_ok_means_solved_rounded.
+Example run_sparse_ok_means_solved_rounded_nonvacuous :
+  wfS sx1 /\ sp_rows sx1 = 1%nat /\ sp_cols sx1 = 1%nat /\
+  (forall i, (i < 1)%nat -> (length (row_entries sx1 i) <= 1)%nat) /\ (INR 1 * ux < 1)%R /\
+  (2 * INR (1 + 1) * ux < 1)%R /\ CG <> QMR /\
+  (exists g, run_sparse (A := SARm xadd xsub xmul xdiv xsqrt) CG sx1 [2%R] [0%R] 2 (/ 2)%R = Ok (IOk 1, [1%R], g)).
+Proof.
+  split; [exact sx1_wf|]. split; [reflexivity|]. split; [reflexivity|]. split; [exact sx1_rows|].
+  split; [exact ex_m_small|]. split; [exact ex_n_small|]. split; [discriminate|exact cg_run_flx].
+Qed.
+
+(* the model's compressed-column product meets the accuracy hypothesis with eA = gam_m || |A| ||_2 *)
+Theorem sparse_product_accuracy : forall (u : R), (0 <= u < 1)%R ->
+  forall (fadd fsub fmul fdiv : R -> R -> R),
+  (forall x y : R, exists d : R, (Rabs d <= u)%R /\ fadd x y = ((x + y) * (1 + d))%R) ->
+  (forall x y : R, exists d : R, (Rabs d <= u)%R /\ fmul x y = (x * y * (1 + d))%R) ->
+  (forall a b : R, fadd 0%R (fmul a b) = fmul a b) ->
+  forall (s : sparse (ARm fadd fsub fmul fdiv)) (n m : nat) (NabsA : R),
+  wfS s -> sp_rows s = n -> sp_cols s = n ->
+  (forall i, (i < n)%nat -> (length (row_entries s i) <= m)%nat) -> (INR m * u < 1)%R -> (0 <= NabsA)%R ->
+  (forall f : nat -> R, (N2 n (Ax n (sp_rabs fadd fsub fmul fdiv s) f) <= NabsA * N2 n f)%R) ->
+  forall v : list R, length v = n -> exists w : list R, sp_mul s v = Ok w /\ length w = n /\
+    (N2 n (fun i => vf w i - Ax n (sp_rentry fadd fsub fmul fdiv s) (vf v) i) <= (gam u m * NabsA) * N2 n (vf v))%R.
+Proof. intros u Hu fadd fsub fmul fdiv Ha Hm H0 s n m NabsA. exact (sparse_MV u Hu fadd fsub fmul fdiv Ha Hm H0 s n m NabsA). Qed.
+Check sparse_product_accuracy : forall (u : R), (0 <= u < 1)%R ->
+  forall (fadd fsub fmul fdiv : R -> R -> R),
+  (forall x y : R, exists d : R, (Rabs d <= u)%R /\ fadd x y = ((x + y) * (1 + d))%R) ->
+  (forall x y : R, exists d : R, (Rabs d <= u)%R /\ fmul x y = (x * y * (1 + d))%R) ->
+  (forall a b : R, fadd 0%R (fmul a b) = fmul a b) ->
+  forall (s : sparse (ARm fadd fsub fmul fdiv)) (n m : nat) (NabsA : R),
+  wfS s -> sp_rows s = n -> sp_cols s = n ->
+  (forall i, (i < n)%nat -> (length (row_entries s i) <= m)%nat) -> (INR m * u < 1)%R -> (0 <= NabsA)%R ->
+  (forall f : nat -> R, (N2 n (Ax n (sp_rabs fadd fsub fmul fdiv s) f) <= NabsA * N2 n f)%R) ->
+  forall v : list R, length v = n -> exists w : list R, sp_mul s v = Ok w /\ length w = n /\
+    (N2 n (fun i => vf w i - Ax n (sp_rentry fadd fsub fmul fdiv s) (vf v) i) <= (gam u m * NabsA) * N2 n (vf v))%R.
+Print Assumptions sparse_product_accuracy.
+Example sparse_product_accuracy_nonvacuous :
+  wfS sx1 /\ sp_rows sx1 = 1%nat /\ sp_cols sx1 = 1%nat /\
+  (forall i, (i < 1)%nat -> (length (row_entries sx1 i) <= 1)%nat) /\ (INR 1 * ux < 1)%R /\ (0 <= 2)%R /\
+  (forall f : nat -> R, (N2 1 (Ax 1 (sp_rabs xadd xsub xmul xdiv sx1) f) <= 2 * N2 1 f)%R).
+Proof.
+  split; [exact sx1_wf|]. split; [reflexivity|]. split; [reflexivity|]. split; [exact sx1_rows|].
+  split; [exact ex_m_small|]. split; [lra|]. apply sx1_norm. apply sx1_entry.
+Qed.
+
+(* the drift is real: at binary64 the model's CG on [[2,1],[1,2]] x = (3,3) from x0 = (1e10, 7e9) with tol = 1e-12 answers
+   Ok(4) with a first residual component of 1.9e-6 (relative residual 4.5e-7): the recurrence residual passed the test,
+   the true residual is five orders of magnitude above tol -- 0.12 units of k u (||A|| X + ||b||)/||b||', inside the bound *)
+From Coq Require Import Floats.
+From OV Require Import Inst.FloatInst Proofs.ComplexRound Proofs.Round2X1.
+Example residual_drift_is_real : exists g,
+  run_trip (A := SAF) CG 2 2 drift_ts [3%float; 3%float] [10000000000%float; 7000000000%float] 50 drift_tol
+    = Ok (IOk 4, drift_x, g) /\
+  (FR drift_tol <= 1 / 1000000000000 + 1 / 10000000000000000000000000000)%R /\
+  (2 * FR (nth 0 drift_x 0%float) + FR (nth 1 drift_x 0%float) - 3 >= 1 / 1000000)%R.
+Proof. exact drift_is_real. Qed.
